@@ -632,6 +632,12 @@ impl ConfigState {
                     id: address.to_string(),
                 })?;
 
+        // Every fallible check comes before the first write: a refused patch
+        // must leave the listener as it was.
+        if let Some(ref v) = patch.sozu_id_header {
+            validate_sozu_id_header(v)?;
+        }
+
         // Shared session-at-accept / per-connection knobs
         if let Some(v) = patch.public_address {
             listener.public_address = Some(v);
@@ -714,7 +720,6 @@ impl ConfigState {
             listener.h2_max_window_update_stream0_per_window = Some(v);
         }
         if let Some(ref v) = patch.sozu_id_header {
-            validate_sozu_id_header(v)?;
             listener.sozu_id_header = Some(v.to_owned());
         }
         Ok(())
@@ -740,6 +745,15 @@ impl ConfigState {
                     kind: ObjectKind::HttpsListener,
                     id: address.to_string(),
                 })?;
+
+        // Every fallible check comes before the first write: a refused patch
+        // must leave the listener as it was.
+        if let Some(ref alpn_wrapper) = patch.alpn_protocols {
+            validate_alpn_protocols(&alpn_wrapper.values)?;
+        }
+        if let Some(ref v) = patch.sozu_id_header {
+            validate_sozu_id_header(v)?;
+        }
 
         // Shared session-at-accept / per-connection knobs
         if let Some(v) = patch.public_address {
@@ -768,7 +782,6 @@ impl ConfigState {
         }
         // HTTPS-only knobs
         if let Some(ref alpn_wrapper) = patch.alpn_protocols {
-            validate_alpn_protocols(&alpn_wrapper.values)?;
             // Empty values vec = reset to default (runtime treats empty as default)
             listener.alpn_protocols = alpn_wrapper.values.clone();
         }
@@ -835,7 +848,6 @@ impl ConfigState {
             listener.h2_max_window_update_stream0_per_window = Some(v);
         }
         if let Some(ref v) = patch.sozu_id_header {
-            validate_sozu_id_header(v)?;
             listener.sozu_id_header = Some(v.to_owned());
         }
         Ok(())
